@@ -49,11 +49,11 @@ var errAllow = []errAllowEntry{
 	ea(`bytes\.\(\*Buffer\)\.Write(String|Rune|Byte)?`, "", "", "documented to always return a nil error (panics on OOM)"),
 	ea(`fmt\.(Print|Printf|Println|Fprintf|Fprint|Fprintln)`, "", "", "terminal/diagnostic output; C06 is about input and evaluation failures (noted)"),
 	ea(`.*\.Close`, "", "defer statement", "deferred Close of a handle whose data has already been consumed"),
-	ea(`io\.\(Closer\)\.Close`, `datasources/lines\.Creator`, "", "read-only preview handle"),
+	ea(`io\.Closer\.Close`, `datasources/lines\.Creator`, "", "read-only preview handle"),
 	ea(`github\.com/nxadm/tail\.\(\*Tail\)\.Stop|io\.\(\*Pipe(Reader|Writer)\)\.(Close|CloseWithError|Write)`, `execution/files\.Tail`, "", "tail pipe plumbing: a failed pipe write means the reader side was closed"),
 	ea(`outputs/batch\.Format\.(Write|Close)|bytes\.\(\*Buffer\)\.WriteTo|github\.com/gosuri/uilive\.\(\*Writer\)\.Flush`, `outputs/batch\.\(\*OutputPrinter\)\.Run`, "", "table rendering into an in-memory buffer / the terminal (final output, noted)"),
 	ea(`encoding/csv\.\(\*Writer\)\.Write`, `outputs/formats\.\(\*CSVFormatter\)\.SetSchema`, "", "header row into a buffered writer (final output, noted)"),
-	ea(`io\.\(Writer\)\.Write`, `outputs/formats\.\(\*JSONFormatter\)\.Write`, "", "final output to stdout (noted)"),
+	ea(`io\.Writer\.Write`, `outputs/formats\.\(\*JSONFormatter\)\.Write`, "", "final output to stdout (noted)"),
 	ea(`github\.com/Masterminds/semver\.NewConstraint`, "", "constarg", "constant constraint string \"*\" always parses"),
 	ea(`fmt\.Errorf`, `cmd\.typecheck(Node|Expr)`, "", "assigned to the named result in the deferred recover"),
 }
